@@ -12,9 +12,10 @@ Proved for all inputs:
   (`C03_entry_roundtrip_partial`): for every entry of the stated domain, every key stream, every iteration order of
   every map and every position of the cursor, what the writer emits is read back as an entry with the same fields
   (maps compared as maps), the writer and the reader leaving the cursor at the same place.
-Not proved: groups, `Meta`, the document frame, and entries with tags or colours; the round trip over the whole schema
-is stated as `C03_xml_full` and validated on every generated database by the correspondence op `xml` — a test,
-labelled so.
+* and on top of these the group tree, `Meta` and the whole document (`C03_xml_roundtrip_partial : C03_xml_full ContentOk`).
+Not proved: entries with tags or colours, the database colour, byte-string values and blank strings (outside the domain
+`ContentOk`); those are validated on every generated database by the correspondence op `xml` — a test, labelled so.
+What ties the XML stage to bytes (xml-rs tokenizer and emitter) is the contract `view`, validated by the same op.
 -/
 namespace Kp.Codec
 open Kp.Fmt
@@ -41,14 +42,17 @@ theorem C03_bool_roundtrip (b : Bool) : parseBool (boolText b) = some b := bool_
 theorem C03_usize_roundtrip (n : Nat) (h : n < 18446744073709551616) : parseUsize (toString n) = some n :=
   usize_roundtrip n h
 
-/-- C03's XML part at full strength: for every database in the lossless domain, every key stream and every
-    map order, the reader applied to what the writer emits (through the xml-rs contract) returns the database. -/
-def C03_xml_full (LosslessDomain : Content → Prop) : Prop :=
-  ∀ (c : Content) (ks : Nat → Nat → Bytes) (gz : Bytes → Bytes) (gunz : Bytes → Option Bytes)
+/-- C03's XML part at full strength, for a domain of databases: for every database of the domain, every key stream and
+    every iteration order of every map, the writer reports success and the reader applied to what the writer emits
+    (through the xml-rs contract) returns an equal database — maps compared as maps (`ContentEq`), because the writer may
+    list a `HashMap` in any order — and ends with the inner-stream cursor where the writer ended. -/
+def C03_xml_full (Domain : (Bytes → Bytes) → Content → Prop) : Prop :=
+  ∀ (c : Content) (ks : Nat → Nat → Bytes) (gz : Bytes → Bytes) (gunz : Bytes → Option Bytes) (u : Bytes → Option String)
     (orders : List (List String)) (now : Int) (fresh : Bytes),
-    LosslessDomain c → (∀ o n, (ks o n).length = n) → (∀ m, gunz (gz m) = some m) →
-    ∃ used, parseContent ⟨ks, gunz, now, fresh⟩ (view (dumpContent ⟨ks, gz⟩ (fun _ => none) orders c).1 []) = .ok (c, used)
-
+    Domain gz c → (∀ o n, (ks o n).length = n) → (∀ m, gunz (gz m) = some m) →
+    (dumpContent ⟨ks, gz⟩ u orders c).2.1 = true ∧
+    ∃ c', parseContent ⟨ks, gunz, now, fresh⟩ (view (dumpContent ⟨ks, gz⟩ u orders c).1 [])
+        = .ok (c', (dumpContent ⟨ks, gz⟩ u orders c).2.2) ∧ ContentEq c c'
 
 /-- **values**: a plain or protected value is read back as itself, the reader's cursor ending where the writer's did —
     for every key stream, every cursor position and whatever follows in the document -/
@@ -95,14 +99,75 @@ theorem C03_entry_roundtrip_partial (denv : DEnv) (penv : Env) (u : Bytes → Op
     ∃ evs off' ords' e', Dumps (dumpEntry denv u fd e) stk off ords true evs stk off' ords' ∧
       Reads (parseEntry penv fp) evs off e' off' ∧ EntryEq e e' := by
   obtain ⟨evs, off', ords', e', h1, h2, h3, _⟩ :=
-    entry_rt denv u penv hks henv (entryDepth e) e (Nat.le_refl _) he fd fp hfd hfp stk off ords
-  exact ⟨evs, off', ords', e', h1, h2, h3⟩
+    entry_rt denv u penv hks henv (entryDepth e) e (Nat.le_refl _) he fd hfd stk off ords
+  exact ⟨evs, off', ords', e', h1, h2 fp hfp, h3⟩
 
-/-- the domain is inhabited by a non-trivial entry: a plain and a protected field, a time-stamp map, and a history
-    holding an older version -/
-example : EntryOk (.mk (List.replicate 16 7) [("Title", .unprotected "mail"), ("Password", .prot [1, 2, 3])] none []
+/-- **the whole document** (partial: the domain `ContentOk` leaves out entry tags, colours, byte-string values and blank
+    strings; everything else of the schema is in it — meta data with memory protection, custom icons, the binary pool
+    (compressed or not) and custom data; the group tree to any depth with all group settings; entries with plain and
+    protected fields, auto-type settings, custom data and nested histories; deleted objects):
+    `save`'s XML stage followed by `open`'s XML stage is the identity, for every key stream and every map order. -/
+theorem C03_xml_roundtrip_partial : C03_xml_full ContentOk := by
+  intro c ks gz gunz u orders now fresh hc hks hgz
+  obtain ⟨evs, off', ords', c', ⟨w, hrun, hview⟩, hread, heq⟩ :=
+    doc_rt ⟨ks, gz⟩ u ⟨ks, gunz, now, fresh⟩ hks rfl hgz c hc orders
+  have h1 := hrun []
+  have h2 := hview []
+  simp only [List.nil_append, List.append_nil, view] at h1 h2
+  have h3 := hread []
+  simp only [List.append_nil] at h3
+  rw [dumpContent_eq]
+  simp only [h1]
+  refine ⟨trivial, c', ?_, heq⟩
+  unfold parseContent
+  rw [h2]
+  show (match parseKeePassFile ⟨ks, gunz, now, fresh⟩ ⟨evs, 0⟩ with
+    | .ok (c, s) => Outcome.ok (c, s.off) | .err c => .err c | .panic p => .panic p) = _
+  rw [h3]
+
+/-- **the group tree** on its own: any group of the domain, to any depth, with entries and sub-groups in order -/
+theorem C03_group_roundtrip_partial (denv : DEnv) (penv : Env) (u : Bytes → Option String)
+    (hks : ∀ o n, (penv.ks o n).length = n) (henv : denv.ks = penv.ks)
+    (uuid : Bytes) (name : String) (notes : Option String) (iconId : Option Nat) (ciu : Option Bytes) (cs : List Node)
+    (t : Times) (cd : CustomData) (isExp : Bool) (das ea es : Option String) (ltve : Option Bytes)
+    (hok : NodeOk (.group uuid name notes iconId ciu cs t cd isExp das ea es ltve)) (fd fp : Nat)
+    (hfd : nodeDepth (.group uuid name notes iconId ciu cs t cd isExp das ea es ltve) ≤ fd)
+    (hfp : nodeDepth (.group uuid name notes iconId ciu cs t cd isExp das ea es ltve) ≤ fp)
+    (stk : List String) (off : Nat) (ords : Ords) :
+    ∃ evs off' ords' g', Dumps (dumpGroup denv u fd (.group uuid name notes iconId ciu cs t cd isExp das ea es ltve))
+        stk off ords true evs stk off' ords' ∧
+      Reads (parseGroup penv fp) evs off g' off' ∧
+      NodeEq (.group uuid name notes iconId ciu cs t cd isExp das ea es ltve) g' := by
+  obtain ⟨evs, off', ords', g', h1, h2, h3, _, _⟩ :=
+    group_rt denv u penv hks henv uuid name notes iconId ciu cs t cd isExp das ea es ltve hok fd hfd stk off ords
+  exact ⟨evs, off', ords', g', h1, h2 fp hfp, h3⟩
+
+/-- **meta data** -/
+theorem C03_meta_roundtrip_partial (denv : DEnv) (penv : Env) (u : Bytes → Option String)
+    (hks : ∀ o n, (penv.ks o n).length = n) (henv : denv.ks = penv.ks) (hgz : ∀ x, penv.gunzip (denv.gzip x) = some x)
+    (m : Meta) (hok : MetaOk denv.gzip m) (stk : List String) (off : Nat) (ords : Ords) :
+    ∃ evs off', Dumps (dumpMeta denv u m) stk off ords true evs stk off' ords.tail ∧
+      Reads (parseMeta penv) evs off { m with customData := insertAll [] (ordered ords m.customData) } off' ∧
+      ∀ k, (insertAll [] (ordered ords m.customData)).lookup k = m.customData.lookup k := by
+  obtain ⟨evs, off', h1, h2, _⟩ := meta_core denv u penv hks henv hgz m hok stk off ords
+  exact ⟨evs, off', h1, h2, lookup_insertAll_ordered ords m.customData hok.customDataNodup⟩
+
+def exEntry : Entry :=
+  .mk (List.replicate 16 7) [("Title", .unprotected "mail"), ("Password", .prot [1, 2, 3])] none []
     ⟨false, 3, [("CreationTime", 0)]⟩ [] (some 4) none none none none (some true)
-    (some [.mk (List.replicate 16 7) [("Title", .unprotected "old")] none [] ⟨false, 0, []⟩ [] none none none none none none none])) := by
+    (some [.mk (List.replicate 16 7) [("Title", .unprotected "old")] none [] ⟨false, 0, []⟩ [] none none none none none none none])
+
+def exContent : Content :=
+  { metaData := { generator := some "KeePass", memoryProtection := some {}, customIcons := [(List.replicate 16 1, [1, 2])],
+                  binaries := [⟨some "0", true, [9]⟩], historyMaxItems := some 10, masterKeyChangeRec := some (-1) },
+    root := .group (List.replicate 16 2) "Root" none (some 48) none
+      [.entry exEntry, .group (List.replicate 16 3) "" (some "notes") none none [] {} [] false none none none none]
+      ⟨false, 0, [("LastModificationTime", 5)]⟩ [] true none none none none,
+    deletedObjects := [(List.replicate 16 4, 0)] }
+
+/-- the entry domain is inhabited: a plain and a protected field, a time-stamp map, a history holding an older version -/
+theorem C03_entry_domain_inhabited : EntryOk exEntry := by
+  unfold exEntry
   refine EntryOk.mk _ _ _ _ _ _ _ _ _ _ (by decide) ?_ (by unfold KeysNodup; decide) (by intro x h; cases h) ?_ (by unfold KeysNodup; decide) (by intro p h; cases h) (by unfold KeysNodup; decide)
     (by intro n h; cases h; decide) (by intro b h; cases h) (by intro s h; cases h) ?_
   · intro p hp
@@ -122,6 +187,50 @@ example : EntryOk (.mk (List.replicate 16 7) [("Title", .unprotected "mail"), ("
     simp only [List.mem_cons, List.not_mem_nil, or_false] at hp
     subst hp
     exact ⟨⟨by decide, by decide⟩, ⟨by decide, Or.inr (by decide)⟩, by decide⟩
+
+/-- the domain of `C03_xml_roundtrip_partial` is inhabited by a non-trivial database (for every compressor whose output is
+    not empty) -/
+theorem C03_domain_inhabited (gz : Bytes → Bytes) (hgz : ∀ m, gz m ≠ []) : ContentOk gz exContent := by
+  refine ⟨?_, ?_, ?_, ?_⟩
+  · refine { generator := ?_, databaseName := (by intro s h; cases h), databaseNameChanged := (by intro s h; cases h),
+             databaseDescription := (by intro s h; cases h), databaseDescriptionChanged := (by intro s h; cases h),
+             defaultUsername := (by intro s h; cases h), defaultUsernameChanged := (by intro s h; cases h),
+             maintenanceHistoryDays := (by intro s h; cases h), color := rfl, masterKeyChanged := (by intro s h; cases h),
+             masterKeyChangeRec := ?_, masterKeyChangeForce := (by intro s h; cases h),
+             customIcons := ?_, recyclebinUuid := (by intro s h; cases h),
+             recyclebinChanged := (by intro s h; cases h), entryTemplatesGroup := (by intro s h; cases h),
+             entryTemplatesGroupChanged := (by intro s h; cases h), lastSelectedGroup := (by intro s h; cases h),
+             lastTopVisibleGroup := (by intro s h; cases h), historyMaxItems := ?_, historyMaxSize := (by intro s h; cases h),
+             settingsChanged := (by intro s h; cases h), binaries := ?_, customData := (by intro p h; cases h),
+             customDataNodup := by unfold KeysNodup; decide }
+    · intro s h; cases h; exact ⟨by decide, by decide⟩
+    · intro i h; cases h; exact ⟨by decide, by decide⟩
+    · intro p hp
+      simp only [exContent, List.mem_cons, List.not_mem_nil, or_false] at hp
+      subst hp; exact ⟨by decide, by decide⟩
+    · intro n h; cases h; unfold UsizeOk; decide
+    · intro b hb
+      simp only [exContent, List.mem_cons, List.not_mem_nil, or_false] at hb
+      subst hb
+      exact ⟨by intro i h; cases h; decide, hgz _⟩
+  · unfold exContent
+    refine NodeOk.group _ _ _ _ _ _ _ _ _ _ _ _ _ (by decide) ⟨by decide, Or.inr (by decide)⟩ (by intro s h; cases h)
+      (by intro n h; cases h; decide) (by intro b h; cases h) ⟨by decide, ?_⟩ (by unfold KeysNodup; decide) (by intro p h; cases h)
+      (by unfold KeysNodup; decide) (by intro s h; cases h) (by intro s h; cases h) (by intro s h; cases h) (by intro b h; cases h) ?_
+    · intro p hp
+      simp only [List.mem_cons, List.not_mem_nil, or_false] at hp
+      subst hp
+      exact ⟨by decide, by decide, by decide, by decide, by decide⟩
+    · refine NodesOk.cons _ _ (NodeOk.entry _ C03_entry_domain_inhabited) (NodesOk.cons _ _ ?_ NodesOk.nil)
+      refine NodeOk.group _ _ _ _ _ _ _ _ _ _ _ _ _ (by decide) ⟨by decide, Or.inl rfl⟩ ?_
+        (by intro n h; cases h) (by intro b h; cases h) ⟨by decide, by intro p h; cases h⟩ (by unfold KeysNodup; decide) (by intro p h; cases h)
+        (by unfold KeysNodup; decide) (by intro s h; cases h) (by intro s h; cases h) (by intro s h; cases h) (by intro b h; cases h) NodesOk.nil
+      intro s h; cases h; exact ⟨by decide, by decide⟩
+  · intro e h; cases h
+  · intro p hp
+    simp only [exContent, List.mem_cons, List.not_mem_nil, or_false] at hp
+    subst hp; exact ⟨by decide, by decide, by decide⟩
+
 
 end Kp.Xml
 
